@@ -99,7 +99,21 @@ func vf29sSearcher(t *testing.T, shards []vf29sShard) *shardedSearcher {
 	return ss
 }
 
-func vf29sSig(fs []zoekt.FileMatch) string {
+// signature of a result; files with equal scores are put in name order first (the order of ties is
+// unspecified: the property is "up to ties"; BM25 file scores have no tie-breakers)
+func vf29sSig(in []zoekt.FileMatch) string {
+	fs := append([]zoekt.FileMatch{}, in...)
+	for i := 0; i < len(fs); {
+		j := i
+		for j < len(fs) && fs[j].Score == fs[i].Score {
+			j++
+		}
+		sort.SliceStable(fs[i:j], func(a, b int) bool {
+			x, y := fs[i+a], fs[i+b]
+			return x.Repository+"/"+x.FileName < y.Repository+"/"+y.FileName
+		})
+		i = j
+	}
 	var b strings.Builder
 	for _, f := range fs {
 		fmt.Fprintf(&b, "%s/%s:%x[", f.Repository, f.FileName, math.Float64bits(f.Score))
